@@ -418,8 +418,7 @@ func CheckC04(p *Pkg, e *Env, r *res.Result) {
 			f := res.Failure{Property: "C04", Kind: kind, Clause: clause,
 				Detail: fmt.Sprintf("%s with %v: %s", oi.op, describeSupplied(supplied), msg),
 				Replay: p.SpecReplay(map[string]any{"request.txt": oi.op.Method + " " + target + "\n" + fmt.Sprint(h)})}
-			if ke := e.Known.MatchKind("C04", kind); ke != nil {
-				r.KnownHits[ke.ID]++
+			if IsKnown(p, e, r, &f) {
 				return
 			}
 			lastFail = &f
@@ -621,8 +620,7 @@ func CheckC05(p *Pkg, e *Env, r *res.Result) {
 			f := res.Failure{Property: "C05", Kind: clause, Clause: clause,
 				Detail: fmt.Sprintf("%s, request path %q (base %q): %s", ti.op, path, base, msg),
 				Replay: p.SpecReplay(map[string]any{"request.txt": ti.op.Method + " " + path})}
-			if ke := e.Known.MatchKind("C05", clause); ke != nil {
-				r.KnownHits[ke.ID]++
+			if IsKnown(p, e, r, &f) {
 				return
 			}
 			lastFail = &f
